@@ -63,6 +63,7 @@ const (
 	sigUnreadable = "stale-on-unreadable-sign-of-life"
 	sigHbStopped  = "heartbeat-stopped-after-transient-fault"
 	sigHbUndead   = "heartbeat-continues-after-context-cancelled"
+	sigHbKilled   = "heartbeat-stopped-by-another-call"
 	sigOpOutcome  = "operation-outcome-unexpected"
 )
 
@@ -745,20 +746,27 @@ func shapeBroken(why string, sc scenario) {
 	}
 	count("holder-operations-not-those-of-the-model")
 	note("holder operations differ from the model's holder machine: " + why)
-	addCase(h.App("CHolder", h.Z(periodNs), "0", "(mkAcq (-1) 0 0)", "[]", h.Nat(0), "[]", "None", "None"),
+	addCase(h.App("CHolder", h.Z(periodNs), "0", "(mkAcq (-1) 0 0)", "[]", h.Nat(0), "[]", "[]", "None"),
 		map[string]any{"kind": "holder-shape-broken", "why": why, "scenario": sc})
 }
 
 // holderCase: the recorded operations as a run of the holder machine with the measured latencies (landing = end
-// of the operation) and the injected faults.  cancelAt != 0: the instant at which the holder's context was
+// of the operation) and the injected faults.  calls: the API calls made on the lock during the hold (the model says which of them end the loop) -- was
 // cancelled.  ok=false when the record cannot be expressed (then the caller reports the broken tie).
+type apiCall struct {
+	Kind string // Coq constructor: KCancelOwn | KUnlock | KTryLock | KLockDeadline | KLockWithTimeout | KIsStale | KReleaseIfStale
+	Same bool   // made on the holder's own lock object
+	At   int64
+	Res  string
+}
+
 type hIter struct {
 	now, openB, openE, writeE, chE int64
 	fault                          string // "", open, write, chtimes
 	created, written, stamped      bool
 }
 
-func holderCase(w *world, ops []recOp, cancelAt, aliveUntil int64) (term string, maxGap int64, minStep int64, iters int, ok bool) {
+func holderCase(w *world, ops []recOp, calls []apiCall, aliveUntil int64) (term string, maxGap int64, minStep int64, iters int, ok bool) {
 	var t0 int64
 	haveMk := false
 	var chDir *recOp
@@ -855,7 +863,6 @@ loop:
 	var cycs []string
 	var prevNow int64
 	minStep = 1 << 62
-	starts := 0
 	for i, it := range its {
 		last := i == len(its)-1
 		s := it.now
@@ -915,9 +922,6 @@ loop:
 				maxGap = s - prevNow
 			}
 		}
-		if cancelAt != 0 && s > cancelAt {
-			starts++
-		}
 		cycs = append(cycs, h.App("mkCyc", h.Z(cOpen), h.Z(cWrite), h.Z(cCh), "@SLEEP@", f))
 		prevEnd, prevNow = end, s
 		iters++
@@ -925,10 +929,11 @@ loop:
 	if len(cycs) > 0 {
 		cycs[len(cycs)-1] = strings.Replace(cycs[len(cycs)-1], "@SLEEP@", "0", 1)
 	}
-	cancel := "None"
-	if cancelAt != 0 {
-		cancel = "(Some " + h.Z(w.rel(cancelAt)) + ")"
+	cts := make([]string, len(calls))
+	for i, c := range calls {
+		cts[i] = h.App("mkApi", c.Kind, h.Bool(c.Same), h.Z(w.rel(c.At)))
 	}
+	cancel := h.List(cts)
 	alive := "None"
 	if aliveUntil != 0 {
 		alive = "(Some " + h.Z(w.rel(aliveUntil)) + ")"
@@ -1639,7 +1644,7 @@ func runDeath(sc scenario, emit bool) {
 	checkTimestamps(evs, sc)
 	fillNow(evs)
 	if emit {
-		if term, _, _, _, ok := holderCase(w, H.rec.all(), 0, 0); ok {
+		if term, _, _, _, ok := holderCase(w, H.rec.all(), nil, 0); ok {
 			addCase(term, map[string]any{"kind": "holder-dead", "scenario": sc})
 		} else {
 			shapeBroken("holder operations cannot be expressed as a run of the holder machine", sc)
@@ -1761,7 +1766,7 @@ func oneFaultHold(sc scenario, emit bool) (stopped, conclusive bool, what string
 		if refN >= 5 {
 			au = lf + 12*periodNs
 		}
-		if term, _, _, its, ok := holderCase(w, H.rec.all(), 0, au); ok {
+		if term, _, _, its, ok := holderCase(w, H.rec.all(), nil, au); ok {
 			addCase(term, map[string]any{"kind": "holder-faults", "scenario": sc, "iterations": its, "new_iteration_after_last_fault": newIter})
 		} else {
 			shapeBroken("holder operations under transient faults cannot be expressed as a run of the holder machine", sc)
@@ -1816,6 +1821,238 @@ func runFaultHold(sc scenario, emit bool) {
 }
 
 // ------------------------------------------------------------------------------------------------
+// 2d. other API calls during a live hold must not touch the holder's heartbeat
+
+// oneBusyHold: the holder acquires (live context, never cancelled, no Unlock until the end).  For ~8 periods other
+// goroutines use the SAME lock object and other objects for the same lock: TryLock (fails), Lock with a deadline
+// that expires, LockWithTimeout that times out, IsStale, ReleaseIfStale (no-op).  Then 12 quiet periods: the heartbeat
+// writer must start new iterations (stopped=true otherwise, provided a reference sleeper shows the process was
+// responsive) and the lock must not have become stale.
+func oneBusyHold(sc scenario, emit bool) (stopped, conclusive bool, what string) {
+	w := newWorld(root, sc.Mem, nextName("bh-"))
+	rng := newRng(sc.Seed)
+	H := w.actor(false)
+	ctx, cancel := context.WithCancel(context.Background())
+	defer cancel()
+	if err := H.lock.TryLock(ctx); err != nil {
+		fail(sigOpOutcome, "TryLock on a free lock failed: "+err.Error(), sc)
+		return false, false, ""
+	}
+	defer func() { _ = H.lock.Unlock(context.Background()) }()
+	time.Sleep(time.Duration(1+rng.Intn(3)) * period)
+	var cmu sync.Mutex
+	var calls []apiCall
+	kinds := []string{"KTryLock", "KLockDeadline", "KLockWithTimeout", "KIsStale", "KReleaseIfStale"}
+	if sc.Op != "" {
+		kinds = []string{sc.Op}
+	}
+	users := []*actor{H, H, w.actor(false), w.actor(false)} // two users of the holder's object, two other objects
+	if sc.Obs == 1 {
+		users = []*actor{H}
+	}
+	// latency reference in the same process over the whole scenario: rounds of period-1ms sleeps, longest round
+	var ref int32
+	var refMax int64
+	refStop := make(chan struct{})
+	go func() {
+		for {
+			select {
+			case <-refStop:
+				return
+			default:
+			}
+			t := now()
+			time.Sleep(period - time.Millisecond)
+			if d := now() - t; d > atomic.LoadInt64(&refMax) {
+				atomic.StoreInt64(&refMax, d)
+			}
+			atomic.AddInt32(&ref, 1)
+		}
+	}()
+	var wg sync.WaitGroup
+	busyEnd := now() + 8*periodNs
+	for ui, u := range users {
+		seed := rng.Int63()
+		wg.Add(1)
+		go func(ui int, u *actor) {
+			defer wg.Done()
+			urng := newRng(seed)
+			for now() < busyEnd {
+				k := kinds[urng.Intn(len(kinds))]
+				if k == "KReleaseIfStale" && u == H && sc.Op == "" {
+					// in the mixes the holder's own object is not used to release (Unlock on it ends the loop
+					// legitimately, which would make a latency-induced release inconclusive); alone it is (Obs=1)
+					k = "KIsStale"
+				}
+				d := time.Duration(20+urng.Intn(60)) * time.Millisecond
+				var err error
+				res := ""
+				switch k {
+				case "KTryLock":
+					err = u.lock.TryLock(context.Background())
+				case "KLockDeadline":
+					c2, cf := context.WithTimeout(context.Background(), d)
+					err = u.lock.Lock(c2)
+					cf()
+				case "KLockWithTimeout":
+					err = u.lock.LockWithTimeout(context.Background(), d)
+				case "KIsStale":
+					if u.lock.IsStale() {
+						res = "stale"
+					}
+				case "KReleaseIfStale":
+					err = u.lock.ReleaseIfStale(context.Background())
+				}
+				if err == nil && res == "" && (k == "KTryLock" || k == "KLockDeadline" || k == "KLockWithTimeout") {
+					res = "acquired" // took a held lock over: give it back, the judgement below sees the removal
+					_ = u.lock.Unlock(context.Background())
+				} else if err != nil {
+					res = errKind(err)
+					if strings.HasPrefix(res, "other:") {
+						res = "other"
+					}
+				}
+				cmu.Lock()
+				calls = append(calls, apiCall{Kind: k, Same: u == H, At: now(), Res: res})
+				cmu.Unlock()
+				time.Sleep(time.Duration(urng.Intn(15)) * time.Millisecond)
+			}
+		}(ui, u)
+	}
+	wg.Wait()
+	tEnd := now()
+	sort.Slice(calls, func(i, j int) bool { return calls[i].At < calls[j].At })
+	// the quiet window
+	refAtEnd := atomic.LoadInt32(&ref)
+	O := w.actor(false)
+	var polls []call
+	for now() < tEnd+12*periodNs {
+		polls = append(polls, O.do("IsStale"))
+		time.Sleep(4 * time.Millisecond)
+	}
+	close(refStop)
+	refN := int(atomic.LoadInt32(&ref) - refAtEnd)
+	hops := H.rec.all()
+	newIter := false
+	for _, o := range hops {
+		if o.Name == "OpenFile" && o.Path == w.hbP && o.B > tEnd {
+			newIter = true
+		}
+	}
+	// somebody removed the lock directory during the busy phase (a latency-induced stale judgement, D30, or a logic
+	// error): then the scenario says nothing about the heartbeat
+	tookOver := 0
+	firstRemoval := int64(1 << 62)
+	for _, u := range append([]*actor{H}, users[1:]...) {
+		for _, o := range u.rec.all() {
+			if (o.Name == "Remove" || o.Name == "RemoveAll") && !o.Err && o.B < firstRemoval {
+				firstRemoval = o.B
+			}
+		}
+	}
+	removed := firstRemoval != int64(1<<62)
+	byKind := map[string]int{}
+	for _, c := range calls {
+		byKind[c.Kind]++
+		if c.Res == "acquired" {
+			tookOver++
+		}
+	}
+	eval()
+	mu.Lock()
+	r.Evals(len(calls))
+	for k, n := range byKind {
+		r.CountN("busyhold:"+k, n)
+	}
+	mu.Unlock()
+	distinct(fmt.Sprintf("busyhold|%s|%d|%v", sc.Op, sc.Obs, sc.Mem))
+	if removed || tookOver > 0 {
+		// the lock was judged stale and removed while its holder was alive (latency, D30, or a consequence of a
+		// stopped heartbeat).  A live loop keeps ATTEMPTING its writes every period even when the directory is gone
+		// (errors ignored) — unless the holder's own object was used to release or re-acquire (Unlock on it ends
+		// the loop legitimately): then the scenario says nothing
+		sameObj := false
+		for _, o := range hops {
+			if (o.Name == "Remove" || o.Name == "RemoveAll") && !o.Err {
+				sameObj = true
+			}
+		}
+		for _, c := range calls {
+			if c.Same && c.Res == "acquired" {
+				sameObj = true
+			}
+		}
+		var lastIter int64
+		for _, o := range hops {
+			if o.Name == "OpenFile" && o.Path == w.hbP && o.B < firstRemoval && o.B > lastIter {
+				lastIter = o.B
+			}
+		}
+		if lastIter != 0 && firstRemoval-lastIter > 2*periodNs && atomic.LoadInt64(&refMax) < periodNs+periodNs/2 {
+			// silent for more than two periods before the removal although the reference goroutine never needed
+			// more than 1.5 periods for a round in the whole scenario (confirmed 3 of 3 by the caller)
+			return true, true, fmt.Sprintf("holder alive, its context never cancelled, no Unlock on its object: during other calls on the lock (%v) its heartbeat writer made no iteration for %.0f ms before a contender judged the lock stale and removed it, while the reference goroutine's longest round of period-1ms took %.0f ms: the writer had been stopped, not delayed",
+				kindsOf(calls), float64(firstRemoval-lastIter)/1e6, float64(atomic.LoadInt64(&refMax))/1e6)
+		}
+		if !sameObj && !newIter && refN >= 5 {
+			return true, true, fmt.Sprintf("holder alive, its context never cancelled, no Unlock on its object: during other calls on the lock (%v) the lock was judged stale and removed by a contender, and the holder's heartbeat writer attempted NO iteration at all during the 12 periods after the calls (reference goroutine: %d rounds): it had been stopped",
+				kindsOf(calls), refN)
+		}
+		count("busyhold:lock-removed-during-the-calls")
+		return false, false, ""
+	}
+	if emit {
+		au := int64(0)
+		if refN >= 5 {
+			au = tEnd + 12*periodNs
+		}
+		if term, _, _, its, ok := holderCase(w, hops, calls, au); ok {
+			addCase(term, map[string]any{"kind": "holder-busy", "scenario": sc, "iterations": its, "calls": byKind, "new_iteration_after_the_calls": newIter})
+		} else {
+			shapeBroken("holder operations during other API calls cannot be expressed as a run of the holder machine", sc)
+		}
+	}
+	staleEnd := len(polls) > 0 && polls[len(polls)-1].Stale
+	if !newIter {
+		if refN < 5 {
+			return false, false, ""
+		}
+		return true, true, fmt.Sprintf("holder alive, its context never cancelled, no Unlock: after other calls on the lock (%v; on the holder's own object and on other objects; none of them acquired) the heartbeat writer attempted NO further iteration during 12 periods (a reference goroutine sleeping period-1ms completed %d rounds in the same window); IsStale at the end of the window = %v: the live lock goes stale and is taken over",
+			byKind, refN, staleEnd)
+	}
+	if staleEnd {
+		judgeStale(w, H, polls[len(polls)-1], sc)
+	}
+	return false, true, ""
+}
+
+func kindsOf(calls []apiCall) map[string]int {
+	m := map[string]int{}
+	for _, c := range calls {
+		m[c.Kind]++
+	}
+	return m
+}
+
+func runBusyHold(sc scenario, emit bool) {
+	stopped, conclusive, what := oneBusyHold(sc, emit)
+	if !stopped {
+		if !conclusive {
+			count("busyhold:inconclusive")
+		}
+		return
+	}
+	for i := 0; i < 3; i++ {
+		st, _, _ := oneBusyHold(sc, false)
+		if !st {
+			count("candidate-not-confirmed:" + sigHbKilled)
+			return
+		}
+	}
+	fail(sigHbKilled, what+" (confirmed 3 of 3)", sc)
+}
+
+// ------------------------------------------------------------------------------------------------
 // 2c. death by cancellation of the holder's context, without Unlock
 
 func runCancelDeath(sc scenario, emit bool) {
@@ -1865,7 +2102,7 @@ func runCancelDeath(sc scenario, emit bool) {
 	count("canceldeath:" + sc.Acquire)
 	distinct(fmt.Sprintf("canceldeath|%s|%d", sc.Acquire, sc.After))
 	if emit {
-		if term, _, _, _, ok := holderCase(w, ops, cancelAt, 0); ok {
+		if term, _, _, _, ok := holderCase(w, ops, []apiCall{{Kind: "KCancelOwn", Same: true, At: cancelAt}}, 0); ok {
 			addCase(term, map[string]any{"kind": "holder-cancelled", "scenario": sc, "iterations_after_cancel": late})
 		} else {
 			shapeBroken("holder operations cannot be expressed as a run of the holder machine", sc)
@@ -2151,7 +2388,7 @@ func runHold(sc scenario, emit bool, confirmMode bool) (res holdResult) {
 	if int(atomic.LoadInt32(&refIters)) >= sc.Periods/2 && atomic.LoadInt64(&refMaxStep) < 3*periodNs && sc.Periods >= 2 {
 		aliveUntil = ended
 	}
-	term, maxGap, minStep, iters, ok := holderCase(w, hops, 0, aliveUntil)
+	term, maxGap, minStep, iters, ok := holderCase(w, hops, nil, aliveUntil)
 	if ok && firstRemoval == int64(1<<62) {
 		if emit && !confirmMode {
 			addCase(term, map[string]any{"kind": "holder-hold", "scenario": sc, "iterations": iters})
@@ -2333,6 +2570,8 @@ func runScenario(sc scenario) {
 		runFaultHold(sc, true)
 	case "canceldeath":
 		runCancelDeath(sc, true)
+	case "busyhold":
+		runBusyHold(sc, true)
 	case "planted":
 		for try := 0; try < 25; try++ {
 			if runPlanted(sc, true) {
@@ -2409,6 +2648,13 @@ func main() {
 	}
 	for i := 0; i < r.N(3, 20); i++ {
 		extra = append(extra, scenario{Kind: "canceldeath", Acquire: []string{"TryLock", "Lock", "LockWithTimeout"}[r.Rng.Intn(3)], After: 1 + r.Rng.Intn(r.N(20, 200)), Seed: r.Rng.Int63n(1000)})
+	}
+	// 2d. other API calls on the held lock: each kind alone on the holder's own object, then mixes
+	for i, k := range []string{"KTryLock", "KLockDeadline", "KLockWithTimeout", "KIsStale", "KReleaseIfStale"} {
+		extra = append(extra, scenario{Kind: "busyhold", Op: k, Obs: 1, Seed: int64(100 + i)})
+	}
+	for i := 0; i < r.N(3, 20); i++ {
+		extra = append(extra, scenario{Kind: "busyhold", Seed: r.Rng.Int63(), Mem: r.Rng.Intn(4) == 0})
 	}
 	sem2 := make(chan struct{}, 6)
 	for _, sc := range extra {
